@@ -146,4 +146,38 @@ def lineTruncate : Nat → Line → Nat → Str → Option (Res Line)
         | none => lineTruncate fuel items width delim
     else some (.ok items)
 
+/-! ## operation sequences on one `Line` value -/
+
+/-- `" "`: one byte, whitespace, its own cluster, one column (the harness checks this against the real
+crates on every sequence case). -/
+def spaceG : Grapheme := ⟨[⟨[32], true⟩], 1⟩
+
+/-- `Line::pad`: a label of `width - w` spaces is pushed when the line is narrower than `width`. -/
+def linePad (l : Line) (width : Nat) : Line :=
+  if width > lwidth l then l ++ [List.replicate (width - lwidth l) spaceG] else l
+
+/-- The operations that build and change a `Line` value: `new`/`item`/`push`/`extend` (one `push` per
+label), `space`, `pad`, `truncate`. `Line::width` is a pure query (`lwidth`). -/
+inductive LineOp where
+  | push (s : Str)
+  | space
+  | pad (width : Nat)
+  | truncate (width : Nat) (delim : Str)
+  deriving Repr, DecidableEq
+
+/-- One operation; `truncate` runs with the fuel of `line_truncate_terminates`. -/
+def lineApply (l : Line) : LineOp → Option (Res Line)
+  | .push s => some (.ok (l ++ [s]))
+  | .space => some (.ok (l ++ [[spaceG]]))
+  | .pad w => some (.ok (linePad l w))
+  | .truncate w d => lineTruncate (l.length + 2) l w d
+
+/-- A history of operations on the same value. -/
+def lineRun : Line → List LineOp → Option (Res Line)
+  | l, [] => some (.ok l)
+  | l, op :: ops =>
+    match lineApply l op with
+    | some (.ok l') => lineRun l' ops
+    | other => other
+
 end HeartwoodModel.Term
